@@ -778,7 +778,9 @@ public:
                     std::string name;
                     PTRef var = PTRef_Undef;
                     do {
-                        name = getSafePrefix(symRef) + std::to_string(num++);
+                        do {
+                            name = getSafePrefix(symRef) + std::to_string(num++);
+                        } while (not Model::isFormalArgNameFree(logic, name, logic.getSortRef(oldArg)));
                         var = logic.mkVar(logic.getSortRef(oldArg), name.c_str());
                     } while (forbiddenVars.find(var) != forbiddenVars.end());
                     newArgs.push(var);
